@@ -143,7 +143,20 @@ def param_state(rng, key, default, dlo, dhi, dfixed, mode):
     fixed = bool(dfixed) if rng.random() < 0.6 else bool(rng.random() < 0.5)
     if mode == "physical":
         return [physical_value(rng, key, default, dlo, dhi), dlo, dhi, fixed], "default"
-    st = str(rng.choice(["default", "default", "tight", "inf", "above", "below", "pct", "corner"]))
+    st = str(rng.choice(["default", "default", "tight", "inf", "above", "below", "pct", "corner", "touch"]))
+    if st == "touch":
+        # boundary of the order-safe limit logic: a new limit exactly ON the opposite class default limit
+        if not math.isinf(dhi) and rng.random() < 0.5:
+            lo = dhi
+            hi = dhi * _logu(rng, 2, 1e3) if dhi > 0 else dhi + _logu(rng, 1e-3, 1e3)
+            v = lo if rng.random() < 0.3 else float(rng.uniform(lo, hi))
+            return [float(v), float(lo), float(hi), fixed], st
+        if not math.isinf(dlo):
+            hi = dlo
+            lo = dlo - _logu(rng, 1e-3, 1e3) if dlo <= 0 else dlo * _logu(rng, 1e-6, 0.5)
+            v = hi if rng.random() < 0.3 else float(rng.uniform(lo, hi))
+            return [float(v), float(lo), float(hi), fixed], st
+        st = "default"
     if st == "default":
         return [physical_value(rng, key, default, dlo, dhi), dlo, dhi, fixed], st
     if st == "corner":
